@@ -191,6 +191,12 @@ def rule_no_alias_results(ctx: Ctx, rule: str = "result-aliasing") -> None:
             rcls = E.ann_class(fi.node.returns)
             bad1 = sorted(o for o in s.ret[1] if o[0] in ("p", "g")) if rcls is not None or "Tuple[" in norm(fi.node.returns) else []
             construct = "%s returns an object created in the call" % fi.key
+            if s.ret_items and isinstance(fi.node.returns, ast.Subscript) and norm(fi.node.returns.value).endswith("Tuple"):
+                sl = fi.node.returns.slice
+                anns = list(sl.elts) if isinstance(sl, ast.Tuple) else [sl]
+                for it_, an_ in zip(s.ret_items, anns):
+                    if E.ann_class(an_) is not None:  # only elements that are domain objects
+                        bad0 += sorted(o for o in it_[0] if o[0] in ("p", "g"))
             if bad0:
                 ctx.violation(rule, fi.key, construct, "the returned object may be %s" % ", ".join("%s %s" % ("parameter" if o[0] == "p" else "module state", o[1]) for o in bad0), where=fi.where)
             elif bad1 and rcls is not None:
